@@ -717,12 +717,27 @@ func runC07(c *Ctx) {
 		nOK, nPanic := 0, 0
 		for _, p := range ps {
 			lo, hi, below, above := false, false, false, false
+			// the first event that acts on the Sorted (a write through the receiver, or a call of a splice primitive or of
+			// another method): the bounds have to be settled before it
+			firstAct := len(p.Events)
+			for i := range p.Events {
+				e := &p.Events[i]
+				acts := e.Kind == "store" && rootOf(e.Addr).Key() == recv.Key() || e.Kind == "mapupdate" ||
+					e.Kind == "call" && strings.HasPrefix(e.Name, "slices.") && e.Name != "slices.(*Sorted).Len"
+				if acts && i < firstAct {
+					firstAct = i
+				}
+			}
+			late := false
 			for _, cd := range p.Conds {
 				pl, kind, isInt := cd.Rel().IntNorm()
 				if !isInt || kind != ">" {
 					continue
 				}
 				ip := ToPoly(index)
+				if cd.NEv > firstAct && (pl.Coef(index.Key()) != 0) {
+					late = true
+				}
 				if pl.Equal(ip.Add(polyConst(1), 1)) { // index + 1 > 0
 					lo = true
 				}
@@ -754,6 +769,9 @@ func runC07(c *Ctx) {
 				if !lo || !hi {
 					ok, why = false, "a path proceeds without having established 0 <= index < Len exactly: "+p.CondString()
 				}
+			}
+			if late {
+				ok, why = false, "the index is tested only after the method has already acted on the slice: the position is judged against the changed contents ("+p.CondString()+")"
 			}
 		}
 		if ok && (nOK == 0 || nPanic == 0) {
@@ -978,13 +996,19 @@ func c7Ctor(c *Ctx, fi *FuncInfo, sliceF *types.Var) {
 					ok, why = false, "the fresh slice does not have the input's length"
 				}
 				var sortCall *Event
+				sortIdx, lastFill := -1, -1
 				for i := range p.Events {
 					e := &p.Events[i]
 					if e.Kind == "call" && e.Name == "builtin.copy" && e.Args[0].Key() == sv.Key() && e.Args[1].Key() == values.Key() {
 						copied = true
 					}
+					// anything that writes the fresh slice: the sort has to come after all of it
+					if e.Kind == "call" && e.Name == "builtin.copy" && rootOf(e.Args[0]).Key() == sv.Key() || e.Kind == "store" && rootOf(e.Addr).Key() == sv.Key() {
+						lastFill = i
+					}
 					if e.Kind == "call" && strings.HasPrefix(e.Name, "sort.") {
 						sortCall = e
+						sortIdx = i
 					}
 					// the argument must not be written / sorted
 					if e.Kind == "store" && rootOf(e.Addr).Key() == values.Key() {
@@ -1025,6 +1049,9 @@ func c7Ctor(c *Ctx, fi *FuncInfo, sliceF *types.Var) {
 						okS, whyS = false, "the copy is not sorted"
 					}
 					continue
+				}
+				if lastFill > sortIdx {
+					okS, whyS = false, "the fresh slice is written after it was sorted (the input is copied in, or an element stored, behind the sort): the Sorted starts out of order"
 				}
 				switch sortCall.Name {
 				case "sort.SliceStable", "sort.Slice":
